@@ -107,6 +107,8 @@ type World struct {
 
 func pickS(rng *rand.Rand, xs []string) string { return xs[rng.Intn(len(xs))] }
 
+func (w *World) Rule(rng *rand.Rand, ptype string) []string { return w.rule(rng, ptype) }
+
 func (w *World) rule(rng *rand.Rand, ptype string) []string {
 	n := w.Arity[ptype]
 	if n == 0 {
@@ -273,4 +275,53 @@ func Call(e *casbin.SyncedEnforcer, m Method, args []reflect.Value) (panicked st
 	}
 	fn.Call(args)
 	return ""
+}
+
+// CallOn calls method m on any receiver that has it (the synchronised wrapper or the plain enforcer) and
+// returns the printed results ("panic: …" as the only element when the call panicked).
+func CallOn(recv interface{}, m Method, args []reflect.Value) (outs []string) {
+	defer func() {
+		if r := recover(); r != nil {
+			outs = []string{"panic: " + fmt.Sprint(r)}
+		}
+	}()
+	fn := reflect.ValueOf(recv).MethodByName(m.Name)
+	if !fn.IsValid() {
+		return []string{"no such method"}
+	}
+	for _, o := range fn.Call(args) {
+		if o.Kind() == reflect.Interface && o.IsNil() {
+			outs = append(outs, "<nil>")
+			continue
+		}
+		if err, ok := o.Interface().(error); ok && err != nil {
+			outs = append(outs, "error")
+			continue
+		}
+		if o.Kind() == reflect.Ptr || o.Kind() == reflect.Func || o.Kind() == reflect.Map && o.Type().Elem().Kind() == reflect.Ptr {
+			outs = append(outs, o.Type().String())
+			continue
+		}
+		// what comes out of a Go map or set has no order: name lists are compared sorted, rule lists too
+		// when the method collects them over role links
+		switch v := o.Interface().(type) {
+		case []string:
+			cp := append([]string(nil), v...)
+			sort.Strings(cp)
+			outs = append(outs, fmt.Sprint(cp))
+			continue
+		case [][]string:
+			if strings.Contains(m.Name, "Implicit") || strings.Contains(m.Name, "Domain") {
+				cp := make([]string, len(v))
+				for i, r := range v {
+					cp[i] = strings.Join(r, ",")
+				}
+				sort.Strings(cp)
+				outs = append(outs, fmt.Sprint(cp))
+				continue
+			}
+		}
+		outs = append(outs, fmt.Sprint(o.Interface()))
+	}
+	return outs
 }
